@@ -23,6 +23,7 @@ import (
 	"storj.io/drpc"
 	"storj.io/drpc/drpcmanager"
 	"storj.io/drpc/drpcmetadata"
+	"storj.io/drpc/drpcwire"
 
 	"verifharness/census"
 	"verifharness/payload"
@@ -495,7 +496,13 @@ func abandoned(id string, seed uint64) runner.Result {
 		switch r.Intn(3) {
 		case 0: // abandoned: metadata only, then the next call uses a higher stream id
 			b = refwire.Encode(b, refwire.Frame{Stream: sid, Message: 1, Kind: 7, Done: true, Data: enc})
-			desc = append(desc, fmt.Sprintf("s%d:metadata-only", sid))
+			if r.Intn(2) == 0 {
+				// what a client in soft-cancel mode emits when the call is cancelled right there: its cancel packet (control bit set)
+				b = refwire.Encode(b, refwire.Frame{Stream: sid, Message: 2, Kind: uint8(drpcwire.KindCancel), Done: true, Control: true})
+				desc = append(desc, fmt.Sprintf("s%d:metadata-only+soft-cancel", sid))
+			} else {
+				desc = append(desc, fmt.Sprintf("s%d:metadata-only", sid))
+			}
 		case 1: // normal call with metadata
 			b = refwire.Encode(b, refwire.Frame{Stream: sid, Message: 1, Kind: 7, Done: true, Data: enc})
 			b = refwire.Encode(b, refwire.Frame{Stream: sid, Message: 2, Kind: 1, Done: true, Data: []byte("/m")})
@@ -534,7 +541,9 @@ func abandoned(id string, seed uint64) runner.Result {
 		return runner.Violation(id, "metadata-abandoned", strings.Join(desc, " ")+"\n"+strings.Join(fails, "\n"))
 	}
 	if reached < len(want) {
-		return runner.Inconcl(id, fmt.Sprintf("%d of %d calls reached their handler (%s)", reached, len(want), strings.Join(desc, " ")))
+		// every session here is one a conforming client emits and the transport has delivered all of it:
+		// a call that has not reached a handler at quiescence has not had its metadata delivered to it
+		return runner.Violation(id, "metadata-abandoned:later-call-never-served", fmt.Sprintf("%d of %d calls reached their handler at quiescence (%s): the metadata of the others arrived nowhere", reached, len(want), strings.Join(desc, " ")))
 	}
 	res := runner.Hold(id, strings.Join(desc, " "), true)
 	res.Events = int64(ncalls)
